@@ -1764,8 +1764,9 @@ class PGPKey(Armorable, ParentRef, PGPObject):
             warnings.warn("Public keys cannot be passphrase-protected", stacklevel=2)
             return
 
-        if self.is_protected and not self.is_unlocked:
+        if any(sk.is_protected and not sk.is_unlocked for sk in itertools.chain([self], self.subkeys.values())):
             # we can't protect a key that is already protected unless it is unlocked first
+            # that goes for every component: the secret key material of a locked subkey is not there to be encrypted
             warnings.warn("This key is already protected with a passphrase - "
                           "please unlock it before attempting to specify a new passphrase", stacklevel=2)
             return
